@@ -398,6 +398,22 @@ func c14RunCase(s *c14Subject, fields []c14Field, choice []int, onlyPath string)
 		res.Fails = append(res.Fails, c14Fail{Key: key, Path: p.Name, AtDev: atDev, Class: class,
 			Desc: fmt.Sprintf("%s via %s [%s] node-location=%v: %s", s.Name, p.Name, devs, []byte(env.Loc), desc)})
 	}
+	// decoy: the subject's baseline object (every field at its first menu value) with one field moved,
+	// so that it differs from x whatever x is
+	buildDecoy := func() (any, bool, string) {
+		dc := make([]int, len(choice))
+		for i := range dc {
+			if choice[i] == 0 && len(fields[i].M) > 1 && !fields[i].M[1].Ill && fields[i].N != "loc" {
+				dc[i] = 1
+				break
+			}
+		}
+		dv := &c14Vals{idx: idx, f: fields, c: dc}
+		var o any
+		var ill bool
+		perr := vx.Guard(func() { o, ill = s.Build(&c14Env{Loc: dv.loc()}, dv) })
+		return o, ill, perr
+	}
 	x0, ill0, perr0 := build()
 	var sum0 [32]byte
 	if perr0 == "" {
@@ -487,6 +503,7 @@ func c14RunCase(s *c14Subject, fields []c14Field, choice []int, onlyPath string)
 			}
 			continue
 		}
+		b1copy := append([]byte{}, b1...)
 		b2, err2, perr2 := enc(x)
 		if perr2 != "" || err2 != nil || !bytes.Equal(b1, b2) {
 			fail(p, "enc-nondeterministic", "bytes", fmt.Sprintf("encoding the same object twice gave different results (%d vs %d bytes, err=%v %s)", len(b1), len(b2), err2, perr2))
@@ -601,6 +618,22 @@ func c14RunCase(s *c14Subject, fields []c14Field, choice []int, onlyPath string)
 		b4, err, perr := enc(z)
 		if perr != "" || err != nil || !bytes.Equal(b4, b3) {
 			fail(p, "fix-bytes", "bytes", fmt.Sprintf("enc(dec(enc(y))) != enc(y) (%d vs %d bytes) %v %s", len(b3), len(b4), err, perr))
+			continue
+		}
+		// --- the bytes handed out for x belong to the caller: later encodings (of x, y, z above, and of a
+		// different object of the same kind now) must not have changed them
+		if dx, dill, dperr := buildDecoy(); dperr == "" && !dill {
+			if p.Applies == nil || p.Applies(dx) {
+				vx.Guard(func() {
+					if p.Proj != nil {
+						dx = p.Proj(env, dx)
+					}
+					p.Enc(env, dx)
+				})
+			}
+		}
+		if !bytes.Equal(b1, b1copy) {
+			fail(p, "enc-aliased", "bytes", fmt.Sprintf("the %d bytes returned for this object changed while other objects were being encoded (first difference at offset %d): the encoder handed out a buffer it reuses", len(b1), c14FirstByteDiff(b1, b1copy)))
 			continue
 		}
 		res.Outcomes = append(res.Outcomes, p.Name+":"+outcome)
